@@ -106,7 +106,7 @@ class Balance(Facet):
     shards = {"quick": 16, "thorough": 16}
 
     def strategy(self, tier):
-        return st.fixed_dictionaries({"cfg": sg.stock_configs(max_n=8 if tier == "quick" else 14, signed=True), "perturb": st.integers(0, 10**6)})
+        return st.fixed_dictionaries({"cfg": sg.stock_configs(max_n=8 if tier == "quick" else 14, signed=True, long_grid=12), "perturb": st.integers(0, 10**6)})
 
     def run(self, desc):
         return run_case(desc)
